@@ -6,6 +6,7 @@ From VQ Require Import Num Model.Vec Model.Core Proofs.CoreEMA Glue.CoreGlue.
 From VQ Require Import Glue.Pin_fp_C03.
 From VQ Require Import Model.Blocks Proofs.BlockProofs.
 From VQ Require Import Model.B32 Proofs.B32Saturation.
+From VQ Require Import Model.Alias Proofs.AliasProofs Glue.Pin_w_euclid Glue.Pin_w_cosine.
 Import ListNotations.
 Open Scope R_scope.
 
@@ -295,3 +296,39 @@ Theorem C03_b32_below_2p24_exact :
   b32_add (b32_of_Z 16777215) b32_one = b32_2p24.
 Proof. exact (@B32Saturation.b32_below_2p24_exact). Qed.
 Print Assumptions C03_b32_below_2p24_exact.
+
+Theorem C03_in_place_update_seen_by_every_observer :
+  forall (V : Type) (st : store V) (m1 m2 : binding) (f g : nat) (v : V),
+       m1 f = m2 g -> read V (fst (write_in_place V st m1 f v)) m2 g = v.
+Proof. exact (@AliasProofs.in_place_seen_by_all). Qed.
+Print Assumptions C03_in_place_update_seen_by_every_observer.
+
+Theorem C03_in_place_update_frame :
+  forall (V : Type) (st : store V) (m1 m2 : binding) (f g : nat) (v : V),
+       m2 g <> m1 f -> read V (fst (write_in_place V st m1 f v)) m2 g = read V st m2 g.
+Proof. exact (@AliasProofs.in_place_frame). Qed.
+Print Assumptions C03_in_place_update_frame.
+
+Theorem C03_rebinding_unties_observers :
+  forall (V : Type) (st : store V) (m1 m2 : binding) (f g fresh : nat) (v : V),
+       m1 f = m2 g -> fresh <> m2 g -> read V (fst (rebind V st m1 f fresh v)) m2 g = read V st m2 g.
+Proof. exact (@AliasProofs.rebind_unties). Qed.
+Print Assumptions C03_rebinding_unties_observers.
+
+Theorem C03_rebinding_refuted :
+  forall (V : Type) (old new : V),
+       old <> new ->
+       exists (st : store V) (m1 m2 : binding) (f fresh : nat),
+         m1 f = m2 f /\ read V (fst (rebind V st m1 f fresh new)) m2 f <> new.
+Proof. exact (@AliasProofs.rebind_refuted). Qed.
+Print Assumptions C03_rebinding_refuted.
+
+Theorem C03_tie_euclid_write_sites_pinned :
+  w_euclid.w_euclid = pinned_w_euclid.
+Proof. exact (@Pin_w_euclid.pin_w_euclid). Qed.
+Print Assumptions C03_tie_euclid_write_sites_pinned.
+
+Theorem C03_tie_cosine_write_sites_pinned :
+  w_cosine.w_cosine = pinned_w_cosine.
+Proof. exact (@Pin_w_cosine.pin_w_cosine). Qed.
+Print Assumptions C03_tie_cosine_write_sites_pinned.
